@@ -1,7 +1,8 @@
 (* Model of the read loops of pygls/io_.py: `run_async` over an asyncio.StreamReader (TCP, client),
    `run_async` over StdinAsyncReader (blocking BufferedReader calls on the pool) and the
    synchronous `run`.  One loop body, parameterised by the reader kind; written after the
-   REPAIRED code (IncompleteReadError / ConnectionError -> break in run_async).
+   REPAIRED code (IncompleteReadError / ConnectionError -> break in run_async; ConnectionError ->
+   break in run).
 
    A reader is a buffer of unread bytes plus what is known about the future of the stream
    (`eof = false`: more may come, a read that cannot complete blocks; `eof = true`: the peer has
@@ -19,7 +20,8 @@ Open Scope N_scope.
 Inductive kind := Stream (limit : N) | StdinPool | Sync.
 
 (* what can escape the loop: ValueError from StreamReader.readline (line longer than the limit),
-   ValueError from int() (more than 4300 digits), ConnectionResetError from the reader *)
+   ValueError from int() (more than 4300 digits), ConnectionResetError from the reader (EReset: only in
+   the unrepaired loops, kept for the pinned-code witnesses of Model/Wrappers.v) *)
 Inductive exn := ELimit | EIntDigits | EReset.
 Inductive term := EndedNormally | Raised (e : exn).
 
@@ -146,8 +148,7 @@ Definition finish (k : kind) (e : ending) (r : result) : list ev * result :=
   | Blocked st =>
     match e with
     | AtEOF => run k true st
-    | AtReset =>                               (* run_async: except ConnectionError: break; run: no handler *)
-      ([], Done (match k with Sync => Raised EReset | _ => EndedNormally end))
+    | AtReset => ([], Done EndedNormally)      (* run_async and run: except ConnectionError: break *)
     end
   | _ => ([], r)
   end.
